@@ -387,6 +387,16 @@ def r7(ctx, prog, eng):
     okc = acc is not None and any(st['op'] == '+=' and al.path(st['ch'][0]) == a0 and al.path(st['ch'][1]) == acc['n'] for st in ups) and \
         any(st['op'] == '-=' and al.path(st['ch'][0]) == a1 and al.path(st['ch'][1]) == acc['n'] for st in ups)
     ctx.ob('C10.R7', '%s|cursor-by-accepted' % al.name, okc, 'appendLockless: ptr += accepted and remain -= accepted for the value Buffer::append returned', where=al.loc(c['i']))
+    # ... and the loop goes on exactly while something remains: it stops at 0 (terminates) and not before (the last byte is not dropped)
+    loops = [st for st in al.stmts if st and st['k'] in ('WhileStmt', 'ForStmt', 'DoStmt') and st.get('cond') is not None and c['i'] in set(al.walk(st['i']))]
+    if not loops:
+        raise AnalysisBroken('appendLockless: the chunk loop was not found')
+    lc = loops[-1]['cond']
+    names = {al.stmts[x].get('n') for x in al.walk(lc) if al.stmts[x]['k'] == 'DeclRefExpr'}
+    bad = [v for v in range(0, 5) if names != {a1} or bool(q.eval_expr(al, lc, lambda sx, v=v: v if sx['k'] == 'DeclRefExpr' and sx.get('n') == a1 else None)) != (v >= 1)]
+    ctx.ob('C10.R7', '%s|loop-while-remaining' % al.name, not bad, 'the chunk loop runs exactly while %s > 0' % a1 if not bad else
+           'the chunk loop %s with %s == %d: %s' % ('stops' if bad[0] >= 1 else 'continues', a1, bad[0], 'the tail of the datum is dropped' if bad[0] >= 1 else
+                                                  'append() never returns (the remainder is unsigned, it is never below zero)'), where=al.loc(lc))
 
 
 def r8(ctx, prog, eng, backend):
